@@ -524,7 +524,7 @@ def check_model(case):
         if r:
             r["what"] = desc + ": " + r["what"]
             return r
-        if ve_fail is None:
+        if ve_fail is None and case.get("ve_check", True):
             # second opinion; a failure of VariableElimination itself is reported only if belief propagation passed everything
             try:
                 got = ve_obj.query(variables=list(Q), evidence=dict(ev) if ev else None, joint=joint, show_progress=False)
@@ -722,15 +722,15 @@ def _mn_factors(rng, names, edges, cards, mode, zeros):
     return facs
 
 
-def gen_mn(tier, seed):
-    rng = O.mk_rng(seed, "c02mn")
+def gen_mn(tier, seed, modes=("full", "tri"), reps=None):
+    rng = O.mk_rng(seed, "c02mn", *modes)
     k = 0
+    reps = reps or (2 if tier == "quick" else 3)
     for n in (1, 2, 3, 4):
         for edges0 in connected_graphs(list(range(n))):
-            for mode in ("full", "sparse", "dup", "tri", "dup3"):
-                if mode == "dup3" and (tier == "quick" and k % 3):
-                    k += 1
-                    continue
+            if "dup" in modes and n == 4 and len(edges0) not in (3, 6):
+                continue  # equal-factor layouts: all graphs <= 3 nodes, trees and the complete graph on 4 nodes
+            for mode in modes * reps:
                 k += 1
                 names = (INT_NAMES if k % 5 == 0 else NAMES)[:n]
                 edges = [[names[a], names[b]] for a, b in edges0]
@@ -739,6 +739,14 @@ def gen_mn(tier, seed):
                 yield {"kind": "mn", "vars": _states(rng, names, cards, style), "edges": edges,
                        "factors": _mn_factors(rng, names, edges, cards, mode, zeros=(k % 3 == 0)), "mode": mode, "qseed": k,
                        "nq": 14 if tier == "quick" else 24}
+
+
+def gen_mn_sparse(tier, seed):
+    return gen_mn(tier, seed, ("sparse",), 1)
+
+
+def gen_mn_equal(tier, seed):
+    return gen_mn(tier, seed, ("dup", "dup3"), 1)
 
 
 def gen_heur(tier, seed):
@@ -757,20 +765,24 @@ def gen_heur(tier, seed):
     k = 0
     for names, edges in graphs:
         cards = _cards(rng, names)
-        vars_ = _states(rng, names, cards, ("str", "mixed")[k % 2])
+        # two of three graphs use the default-looking int labels: they are blind to the (separately reported) missing state
+        # names in clique potentials, so that the numerics of every heuristic are exercised on all of them
+        vars_ = _states(rng, names, cards, ("int", "str", "int", "int", "mixed", "int")[(k // 6) % 6])
         facs = _mn_factors(rng, names, edges, cards, "full", zeros=False)
         for h in ("H1", "H2", "H3", "H4", "H5", "H6"):
             k += 1
             yield {"kind": "mn", "vars": vars_, "edges": edges, "factors": facs, "heuristic": h, "qseed": k, "nq": 6}
 
 
-def gen_fg(tier, seed):
-    rng = O.mk_rng(seed, "c02fg")
+def gen_fg(tier, seed, with_ve=False):
+    rng = O.mk_rng(seed, "c02fg", with_ve)
     k = 0
     for n in (1, 2, 3, 4):
         names = NAMES[:n]
         for edges in connected_graphs(names):
-            for mode in ("full", "tri") + (("sparse",) if tier != "quick" else ()):
+            if with_ve and (n == 4 and len(edges) != 6 or k >= 12):
+                continue
+            for mode in ("full", "tri") + (("sparse",) if tier != "quick" and k % 3 == 0 else ()):
                 k += 1
                 style = ("str", "int", "mixed", "vary")[k % 4]
                 cards = _cards(rng, names)
@@ -779,7 +791,11 @@ def gen_fg(tier, seed):
                 if not _connected(names, [list(p) for f in facs for p in itertools.combinations(f["scope"], 2)]):
                     continue
                 yield {"kind": "fg", "vars": _states(rng, names, cards, style), "edges": edges, "factors": facs, "mode": mode, "qseed": k,
-                       "nq": 10 if tier == "quick" else 20}
+                       "nq": (10 if tier == "quick" else 20) if not with_ve else 4, "ve_check": with_ve}
+
+
+def gen_fg_ve(tier, seed):
+    return gen_fg(tier, seed, True)
 
 
 def gen_jt(tier, seed):
@@ -822,13 +838,21 @@ def groups(tier):
                     "<= 24 (variables, evidence-by-state-name, joint) queries with |variables| <= 3, |evidence| <= 2, virtual evidence on 1-2 variables; "
                     "VariableElimination cross-check"),
         Group("mn", gen_mn, check_model, nontrivial, seed_fanout=fan, engine="E3",
-              bound="MarkovNetworks on every connected graph <= 4 nodes x factor layouts {pairwise on all edges + unary, pairwise on a subset, "
-                    "two/three EQUAL factors on one scope, one factor per maximal clique}, cards in {1,2,3}, str/int/mixed/permuted state names; same checks; "
-                    "no virtual evidence (ignored for undirected models)"),
+              bound="MarkovNetworks on every connected graph <= 4 nodes x 2 (3) draws x factor layouts {pairwise on all edges + some unary, one factor per "
+                    "maximal clique}, cards in {1,2,3}, str/int/mixed/permuted state names, str and int node names; same checks; "
+                    "no virtual evidence (the argument is ignored for undirected models)"),
+        Group("mn_sparse", gen_mn_sparse, check_model, nontrivial, seed_fanout=fan, engine="E3",
+              bound="same graphs, pairwise factors on a random subset of the edges + unary factors (cliques that get no factor mentioning one of their variables)"),
+        Group("mn_equal", gen_mn_equal, check_model, nontrivial, seed_fanout=min(fan, 4), engine="E3",
+              bound="same graphs, one factor present two or three times (equal scope and values)"),
         Group("mn_heuristics", gen_heur, check_model, nontrivial, seed_fanout=fan, engine="E3",
-              bound="all non-chordal connected graphs on 4 nodes and 6 (30) seeded ones on 5 nodes, triangulate(H1..H6, inplace) then the same checks"),
+              bound="all non-chordal connected graphs on 4 nodes and 6 (30) seeded ones on 5 nodes, triangulate(H1..H6, inplace) then the same checks; "
+                    "4 of 6 graphs with int state labels"),
         Group("fg", gen_fg, check_model, nontrivial, seed_fanout=fan, engine="E3",
-              bound="FactorGraphs derived from every connected graph <= 4 nodes (unary+pairwise, maximal-clique factors; thorough: sparse); same checks"),
+              bound="FactorGraphs derived from every connected graph <= 4 nodes (unary+pairwise, maximal-clique factors; thorough: 1/3 sparse); same checks, "
+                    "without the VariableElimination cross-check"),
+        Group("fg_ve", gen_fg_ve, check_model, nontrivial, seed_fanout=1, engine="E3",
+              bound="a handful of the FactorGraphs, with the VariableElimination cross-check"),
         Group("jt", gen_jt, check_model, nontrivial, seed_fanout=fan, engine="E3",
               bound="80 (240) seeded JunctionTrees given directly: 1-4 cliques of 1-4 variables with the running-intersection property, "
                     "factor scope order != clique order; same checks"),
